@@ -257,7 +257,7 @@ def handle (j : Json) : Json :=
   let excl :=
     (match su.schema, origVal with
      | some s, some v =>
-       (if bodyActive && !skip && Body.hasNullProp v then ["NullReplaced"] else []) ++
+       (if bodyActive && !skip && (Body.hasNullProp v || !Body.cleanDefaults s) then ["NullReplaced"] else []) ++
        (if bodyActive && !skip && Body.BranchShift ctx s v then ["BranchShift"] else [])
      | _, _ => []) ++
     (if su.params.any (fun p => Params.EmptyPresent skip p st0) then ["EmptyPresent"] else []) ++
